@@ -64,3 +64,107 @@ package transform
 //@   ensures C14_primary_field_kept: err == nil ==> out[0].Name == sf.Name && out[0].Type == sf.Type && out[0].Anonymous == sf.Anonymous
 //@   ensures C14_alias_field_same_type: err == nil && len(out) == 2 ==> out[1].Type == sf.Type
 //@   ensures C14_error_returns_nothing: err != nil ==> out == nil
+
+// Translate: a fresh, settable, all-unset value of the translated type.  When the last mangler of the chain
+// is the string-casting mangler every translated field is a *string (used by the environment source).
+//@ macro lastManglerIsStringCast(ms Slice) bool = len(ms) >= 1 && isType(cell(selem(ms, len(ms) - 1), "Iface"), "*transform.StringCastingMangler")
+//@ func transform.(*Transformer).Translate(t) (v, err)
+//@   flag unproved
+//@   flag record translate
+//@   requires t != nil
+//@   modifies transform.Transformer.mState@t, rh
+//@   ensures err == nil ==> valid(v) && kind(vtype(v)) == Struct && canSet(v) && canAddr(v) && vtype(v) == translated(t.t, t.manglers)
+//@   ensures err == nil ==> (forall k int :: {vField(v, k)} 0 <= k && k < numField(vtype(v)) ==> isExported(fName(vtype(v), k)))
+//@   ensures err == nil ==> (forall k int :: {visnil(vField(v, k))} 0 <= k && k < numField(vtype(v)) && isNilableKind(kind(fType(vtype(v), k))) ==> visnil(vField(v, k)))
+//@   ensures err == nil && lastManglerIsStringCast(t.manglers) ==>
+//@        (forall k int :: {fType(vtype(v), k)} 0 <= k && k < numField(vtype(v)) ==> fType(vtype(v), k) == typeOfDyn(tid("*string")))
+//@   ensures err != nil ==> !valid(v)
+
+//@ func transform.NewFlattenMangler(tag, nameEnc, tagEnc) (m)
+//@   safety C16
+//@   ensures m != nil && fresh(m) && m.tag == tag
+//@ func transform.NewAliasMangler(tags) (m)
+//@   safety C16
+//@   ensures m != nil && fresh(m) && m.tags == tags
+
+// ---------------------------------------------------------------------------------------------
+// string-casting mangler (C11, C10): an unset string stays unset; a set one is exactly what parse.String
+// makes of it for the field's type.
+// ---------------------------------------------------------------------------------------------
+
+//@ extern func parse.String(str, t) (v, err)
+//@   flag record parseString
+
+//@ func transform.(*StringCastingMangler).Mangle(m, sf) (out, err)
+//@   props C10 C11
+//@   safety C16
+//@   requires wf_package_initialised: global("strPtrType") == typeOfDyn(tid("*string"))
+//@   ensures C10_one_string_field: err == nil && len(out) == 1 && out[0].Name == sf.Name && out[0].Tag == sf.Tag
+//@        && out[0].Type == typeOfDyn(tid("*string"))
+
+//@ func transform.(*StringCastingMangler).Unmangle(m, sf, vs) (v, err)
+//@   props C10 C11
+//@   safety C16
+//@   requires len(vs) == 1 && valid(vs[0].Value) && canInterface(vs[0].Value) && vtype(vs[0].Value) == typeOfDyn(tid("*string"))
+//@   requires pointerified_field: sf.Type != nil && (kind(sf.Type) == Slice || kind(sf.Type) == Map || kind(sf.Type) == Ptr)
+//@   modifies rec_parseString
+//@   ensures C11_unset_stays_unset: visnil(vs[0].Value) ==> err == nil && valid(v) && vtype(v) == sf.Type && rec_parseString_cnt == old(rec_parseString_cnt)
+//@   ensures C11_set_value_is_parsed_for_the_field_type: !visnil(vs[0].Value) ==> rec_parseString_cnt == old(rec_parseString_cnt) + 1
+//@        && rec_parseString_arg0[old(rec_parseString_cnt)] == cell(vptr(vs[0].Value), "string")
+//@        && rec_parseString_arg1[old(rec_parseString_cnt)] == ite(kind(sf.Type) == Slice || kind(sf.Type) == Map, sf.Type, elem(sf.Type))
+//@        && v == rec_parseString_res0[old(rec_parseString_cnt)] && err == rec_parseString_res1[old(rec_parseString_cnt)]
+
+// ---------------------------------------------------------------------------------------------
+// flatten mangler, reverse direction (C10, C11): depth-first leaf order shared with flattenStruct
+// ---------------------------------------------------------------------------------------------
+
+//@ rec stripPtr(t RType) RType = ite(kind(t) == Ptr, stripPtr(elem(t)), t)
+//@ def isTUStruct(t RType, tu RType) bool = implements(t, tu) || implements(ptrTo(t), tu)
+//@ def isLeafType(t RType, tu RType) bool = kind(stripPtr(t)) != Struct || isTUStruct(stripPtr(t), tu)
+// number of flattened leaves of a (pointer to a) type; leafSum(T, n) = leaves of the first n fields of struct T
+//@ rec leafCount(t RType, tu RType) int = ite(isLeafType(t, tu), 1, leafSum(stripPtr(t), numField(stripPtr(t)), tu))
+//@ rec leafSum(t RType, n int, tu RType) int = ite(n <= 0, 0, leafSum(t, n - 1, tu) + leafCount(fType(t, n - 1), tu))
+//@ macro tuType() RType = global("textMReflectType")
+
+//@ lemma stripPtr_rank(t RType, r int)
+//@   props C10
+//@   induct r
+//@   requires r >= 0 && srank(t) <= r
+//@   ensures srank(stripPtr(t)) <= srank(t) && kind(stripPtr(t)) != Ptr
+//@ lemma stripPtr_rank_le(t RType)
+//@   props C10
+//@   hint stripPtr_rank(t, srank(t))
+//@   trigger stripPtr(t)
+//@   ensures srank(stripPtr(t)) <= srank(t) && kind(stripPtr(t)) != Ptr
+//@ lemma leafSum_nonneg(t RType, n int, tu RType)
+//@   props C10
+//@   induct n
+//@   trigger leafSum(t, n, tu)
+//@   requires n >= 0 && (forall i int :: 0 <= i && i < n ==> leafCount(fType(t, i), tu) >= 0)
+//@   ensures leafSum(t, n, tu) >= 0
+//@ lemma leafCount_nonneg_ranked(t RType, tu RType, r int)
+//@   props C10
+//@   induct r
+//@   hint leafSum_nonneg(stripPtr(t), numField(stripPtr(t)), tu)
+//@   requires r >= 0 && srank(t) <= r
+//@   ensures leafCount(t, tu) >= 0
+//@ lemma leafCount_nonneg(t RType, tu RType)
+//@   props C10
+//@   hint leafCount_nonneg_ranked(t, tu, srank(t))
+//@   trigger leafCount(t, tu)
+//@   ensures leafCount(t, tu) >= 0
+
+//@ func transform.getUnderlyingKindType(t) (k, r)
+//@   props C10
+//@   safety C16
+//@   requires t != nil
+//@   loop 0:
+//@     invariant t != nil && stripPtr(t) == stripPtr(old(t)) && k == kind(t)
+//@     decreases srank(t)
+//@   ensures C10_strips_all_pointers: r == stripPtr(t) && k == kind(r) && k != Ptr && r != nil
+
+//@ func transform.isNil(val) (r)
+//@   props C10
+//@   safety C16
+//@   requires valid(val)
+//@   ensures r <==> (isNilableKind(kind(vtype(val))) && kind(vtype(val)) != UnsafePointer && visnil(val))
